@@ -1,5 +1,5 @@
 (** Extraction of the runnable definitions (ExtrOcamlBasic only; N/Z/positive/nat stay inductive). *)
-From Bbolt Require Import Base Freelist Spec Layout Cursor.
+From Bbolt Require Import Base Freelist Spec Layout Cursor Pager.
 Require Import ExtrOcamlBasic.
 Extraction Blacklist List String.
 Separate Extraction
@@ -10,4 +10,5 @@ Separate Extraction
   Freelist.pend_pairs Freelist.release_pending_gen
   Spec.exec Spec.resolve Spec.key_n Spec.listing Spec.keys_sorted
   Layout.dec_db Layout.dec_with_meta Layout.accounted Layout.page_ids Layout.nodupb Layout.freelist_ids Layout.validate_at Layout.choose_meta
-  Cursor.api_call Cursor.list_call Cursor.flatten Cursor.nodes Cursor.depth Cursor.has_empty_leaf Cursor.api_run Cursor.list_run Cursor.wf Cursor.fuel_for.
+  Cursor.api_call Cursor.list_call Cursor.flatten Cursor.nodes Cursor.depth Cursor.has_empty_leaf Cursor.api_run Cursor.list_run Cursor.wf Cursor.fuel_for
+  Pager.pstep Pager.pg_open Pager.scan_free Pager.commit_writes Pager.pend_pages Pager.minus.
